@@ -6,7 +6,9 @@ from common import tag
 rnd = random.Random(int(sys.argv[1]) * 17 + 3); N = int(sys.argv[2])
 M = 2 ** 53 - 1
 INTS = [0, 1, -1, 2, -2, M, -M, M - 1, -M + 1, M + 1, -M - 1, 2 ** 63 - 1, -2 ** 63, 2 ** 63, -2 ** 63 - 1, 2 ** 64, 10 ** 20, -10 ** 20, 2 ** 31, -2 ** 31, 2 ** 32]
-NUMS = [str(i) for i in INTS] + ['1e400', '-1e400', '1e-400', '0.1e1', '9223372036854775807.0', '1E+19', '-0', '-0.0', '0e0', '123456789012345678901234567890']
+NUMS = [str(i) for i in INTS] + ['1e400', '-1e400', '1e-400', '0.1e1', '9223372036854775807.0', '1E+19', '-0', '-0.0', '0e0', '123456789012345678901234567890',
+                                    '1e2147483647', '1e2147483648', '1e99999999999', '1e-2147483649', '1e-99999999999', '1E+4294967296', '0e99999999999999999999', '1e18446744073709551616', '1.5e9223372036854775808',
+                                    '0.' + '0' * 400 + '1', '1' + '0' * 400, '1' + '0' * 400 + '.5', '-1e-400', '4.9e-324', '2e-324']
 DOCS = [None, True, 0, 1.5, '', 'abc', [], {}, [0], [0, 1, 2], {'a': 1}, [[]], [{}], {'a': []}, list(range(10)), [[1, 2], [3, 4]], {'a': {'a': {'a': 1}}}, ['𝄞', 'é']]
 def i(): return str(rnd.choice(INTS))
 def sl():
